@@ -1,0 +1,38 @@
+// Copyright © 2024 Attestant Limited.
+// Licensed under the Apache License, Version 2.0 (the "License");
+// you may not use this file except in compliance with the License.
+// You may obtain a copy of the License at
+//
+//     http://www.apache.org/licenses/LICENSE-2.0
+//
+// Unless required by applicable law or agreed to in writing, software
+// distributed under the License is distributed on an "AS IS" BASIS,
+// WITHOUT WARRANTIES OR CONDITIONS OF ANY KIND, either express or implied.
+// See the License for the specific language governing permissions and
+// limitations under the License.
+
+//go:build verif
+
+package util
+
+import (
+	builder "github.com/attestantio/go-builder-client"
+)
+
+// VerifSetBuilderClient registers a builder client for an address, so that FetchBuilderClient returns it
+// rather than creating an HTTP client.  For external runtime monitors only.
+func VerifSetBuilderClient(address string, client builder.Service) {
+	buildersMu.Lock()
+	defer buildersMu.Unlock()
+	if builders == nil {
+		builders = make(map[string]builder.Service)
+	}
+	builders[address] = client
+}
+
+// VerifResetBuilderClients forgets all builder clients.  For external runtime monitors only.
+func VerifResetBuilderClients() {
+	buildersMu.Lock()
+	defer buildersMu.Unlock()
+	builders = make(map[string]builder.Service)
+}
